@@ -5,7 +5,7 @@
 From Coq Require Import List NArith ZArith Bool Arith Lia.
 Import ListNotations.
 Require Import XV.Str XV.StrProofs XV.Json XV.TextFormat XV.Forest XV.Matcher XV.Differ XV.Path XV.WF XV.AttrProofs XV.XmlFmt XV.Projections
-               XV.XmlFmtProofs0 XV.XmlFmtProofs1 XV.XmlFmtProofs2 XV.XmlFmtProofs3 XV.XmlFmtProofs4 XV.XmlFmtProofs5
+               XV.XmlFmtProofs0 XV.XmlFmtProofs1 XV.XmlFmtProofs2 XV.XmlFmtProofsR2 XV.XmlFmtProofs3 XV.XmlFmtProofs4 XV.XmlFmtProofs5
                XV.XmlFmtProofs8 XV.XmlFmtProofs9 XV.XmlFmtProofsE.
 Require XV.Placeholder XV.PlaceholderUndo.
 Local Open Scope N_scope.
@@ -342,6 +342,7 @@ Proof.
 Qed.
 
 Section StepAttrs.
+Variable S : pstate.
 Variable c : cfg.
 Variable o : oracle.
 Variable rootns : list (option str * str).
@@ -364,13 +365,13 @@ Definition step_ok_attr (st : fstate) (d : dact) : Prop :=
   | _ => True
   end.
 
-Lemma root_alive W p n : winv W -> get_at W p = Some n -> p <> [] \/ alive_r n = true.
+Lemma root_alive W p n : winv S W -> get_at W p = Some n -> p <> [] \/ alive_r n = true.
 Proof.
-  intros HW G. destruct p; [right|left; discriminate]. cbn in G. inversion G; subst. unfold alive_r. now rewrite (wi_root _ HW).
+  intros HW G. destruct p; [right|left; discriminate]. cbn in G. inversion G; subst. unfold alive_r. now rewrite (wi_root _ _ HW).
 Qed.
 
 (* the node at p is rewritten into n' *)
-Lemma attrs_map_at W p n n' : winv W -> atree W -> get_at W p = Some n -> atree n' -> alive_r n' = alive_r n ->
+Lemma attrs_map_at W p n n' : winv S W -> atree W -> get_at W p = Some n -> atree n' -> alive_r n' = alive_r n ->
   (alive_r n = true -> ale (av n') (av n)) ->
   atree (map_at p (fun _ => n') W) /\ ale (av (map_at p (fun _ => n') W)) (av W).
 Proof.
@@ -379,7 +380,7 @@ Proof.
 Qed.
 
 (* the attributes of the node at p change *)
-Lemma node_attrs_step W p n a' : winv W -> atree W -> get_at W p = Some n -> aok (with_attrs n a') ->
+Lemma node_attrs_step W p n a' : winv S W -> atree W -> get_at W p = Some n -> aok (with_attrs n a') ->
   aget a' INSERT_NAME = aget (xattrs n) INSERT_NAME ->
   Forall2 attr_r (sort_attrs (old_attrs a')) (sort_attrs (old_attrs (xattrs n))) ->
   atree (map_at p (fun _ => with_attrs n a') W) /\ ale (av (map_at p (fun _ => with_attrs n a') W)) (av W).
@@ -391,7 +392,7 @@ Proof.
   - intros _. apply ale_node; [destruct n; exact Hrel|destruct n; apply Forall2_refl_ale].
 Qed.
 
-Lemma mark_step W p n K v : winv W -> atree W -> get_at W p = Some n -> is_mark K -> K <> INSERT_NAME ->
+Lemma mark_step W p n K v : winv S W -> atree W -> get_at W p = Some n -> is_mark K -> K <> INSERT_NAME ->
   atree (map_at p (fun _ => with_attrs n (aput (xattrs n) K v)) W) /\
   ale (av (map_at p (fun _ => with_attrs n (aput (xattrs n) K v)) W)) (av W).
 Proof.
@@ -404,6 +405,7 @@ Qed.
 End StepAttrs.
 
 Section StepAttrs2.
+Variable S : pstate.
 Variable c : cfg.
 Variable o : oracle.
 Variable rootns : list (option str * str).
@@ -414,20 +416,20 @@ Lemma mark_rename : is_mark RENAME_NAME /\ RENAME_NAME <> INSERT_NAME.
 Proof. split; [right; right; reflexivity|]. intros E. apply dname_inj in E. discriminate. Qed.
 
 (* a node whose attributes and liveness are untouched, children possibly gaining a dead one *)
-Lemma same_attrs_step W p n n' : winv W -> atree W -> get_at W p = Some n ->
+Lemma same_attrs_step W p n n' : winv S W -> atree W -> get_at W p = Some n ->
   xattrs n' = xattrs n -> Forall atree (xkids n') ->
   map av (filter alive_r (xkids n')) = map av (filter alive_r (xkids n)) ->
   atree (map_at p (fun _ => n') W) /\ ale (av (map_at p (fun _ => n') W)) (av W).
 Proof.
   intros HW HA G Ea Hk Ek. pose proof (atree_get _ _ _ HA G) as Hn. apply atree_iff in Hn as [Hok _].
-  apply (attrs_map_at W p n n' HW HA G).
+  apply (attrs_map_at S W p n n' HW HA G).
   - apply atree_iff. split; [unfold aok in *; rewrite Ea; exact Hok|exact Hk].
   - unfold alive_r, is_inserted. now rewrite Ea.
   - intros _. apply ale_node; [rewrite Ea; apply Forall2_refl_attr|rewrite Ek; apply Forall2_refl_ale].
 Qed.
 
 Theorem step_attrs st d st' :
-  winv (fs_tree st) -> atree (fs_tree st) -> step_ok_attr rootns st d ->
+  winv S (fs_tree st) -> atree (fs_tree st) -> step_ok_attr rootns st d ->
   handle_d c o rootns st d = FOk st' ->
   atree (fs_tree st') /\ ale (av (fs_tree st')) (av (fs_tree st)).
 Proof.
@@ -435,7 +437,7 @@ Proof.
   - (* DeleteNode *)
     unfold handle_DeleteNode in H. apply fbind_ok in H as (p & Ep & H).
     apply upd_node_inv in H as (n & n' & G & E & ->). inversion E; subst n'. cbn [fs_tree].
-    destruct mark_delete as [M1 M2]. exact (mark_step _ p n DELETE_NAME [] HW HA G M1 M2).
+    destruct mark_delete as [M1 M2]. exact (mark_step S _ p n DELETE_NAME [] HW HA G M1 M2).
   - (* InsertNode *)
     unfold handle_InsertNode in H. apply fbind_ok in H as (p & Ep & H).
     apply upd_node_inv in H as (n & n' & G & E & ->). inversion E; subst n'. cbn [fs_tree].
@@ -448,10 +450,10 @@ Proof.
   - (* RenameNode *)
     unfold handle_RenameNode in H. apply fbind_ok in H as (p & Ep & H).
     apply upd_node_inv in H as (n & n' & G & E & ->). inversion E; subst n'. cbn [fs_tree].
-    destruct mark_rename as [M1 M2]. destruct (mark_step _ p n RENAME_NAME (xtag n) HW HA G M1 M2) as [A1 A2].
+    destruct mark_rename as [M1 M2]. destruct (mark_step S _ p n RENAME_NAME (xtag n) HW HA G M1 M2) as [A1 A2].
     pose proof (atree_get _ _ _ HA G) as Hn. apply atree_iff in Hn as [Hokn Hk].
     destruct (aok_mark n RENAME_NAME (xtag n) Hokn M1) as [B1 B2].
-    apply (attrs_map_at _ p n _ HW HA G).
+    apply (attrs_map_at S _ p n _ HW HA G).
     + apply atree_iff. unfold h_RenameNode. split; [destruct n; exact B1|destruct n; exact Hk].
     + unfold alive_r, is_inserted, ahas, h_RenameNode. destruct n. cbn [with_tag with_attrs xattrs xtag].
       rewrite aget_aput_other by (intros E0; apply dname_inj in E0; discriminate). reflexivity.
@@ -466,10 +468,10 @@ Proof.
     destruct mark_delete as [M1 M2].
     assert (E1 : t1 = map_at pn (fun _ => with_attrs copy (aput (xattrs copy) DELETE_NAME [])) (fs_tree st)).
     { unfold t1. apply map_at_ext. intros n0 Hn0. rewrite Gn in Hn0. inversion Hn0; subst. reflexivity. }
-    destruct (mark_step _ pn copy DELETE_NAME [] HW HA Gn M1 M2) as [A1 V1]. rewrite <- E1 in A1, V1.
-    (* t1 keeps winv *)
-    assert (HW1 : winv t1).
-    { rewrite E1. destruct (attrs_step false _ pn copy _ HW Gn (same_marks_delete (xattrs copy))) as [I _]. exact I. }
+    destruct (mark_step S _ pn copy DELETE_NAME [] HW HA Gn M1 M2) as [A1 V1]. rewrite <- E1 in A1, V1.
+    (* t1 keeps winv S *)
+    assert (HW1 : winv S t1).
+    { rewrite E1. destruct (attrs_step S false _ pn copy _ HW Gn (same_marks_delete (xattrs copy))) as [I _]. exact I. }
     set (ins := with_attrs copy (aput (xattrs copy) INSERT_NAME [])).
     set (real := real_insert_position (xkids tgn) pos).
     rewrite (map_at_ext pt _ (fun _ => with_kids tgn (insert_kid real ins (xkids tgn))) t1) by (intros n0 Hn0; congruence).
@@ -513,7 +515,7 @@ Proof.
     destruct (aget (xattrs n) k) as [ov|] eqn:Eg; [|discriminate]. inversion E; subst n'. cbn [fs_tree].
     pose proof (atree_get _ _ _ HA G) as Hn. apply atree_iff in Hn as [(D & A & Rn & U & Han) _].
     destruct (h_update_ann _ D A Rn U Han k v ov Hk Hv (ann_fresh _ _ _ _ _ k Han (Hfr p n Ep G)) Eg) as [Han' Hw].
-    apply (node_attrs_step _ p n _ HW HA G).
+    apply (node_attrs_step S _ p n _ HW HA G).
     + exists D, A, Rn, (U ++ [(k, ov)]). destruct n; exact Han'.
     + rewrite extend_get by (apply attr_suffix_neq; auto). apply aget_aput_other.
       intros E0; symmetry in E0; revert E0; apply plain_name_neq, Hk.
@@ -526,7 +528,7 @@ Proof.
     destruct (ahas (xattrs n) k) eqn:Eh; [|discriminate]. inversion E; subst n'. cbn [fs_tree].
     pose proof (atree_get _ _ _ HA G) as Hn. apply atree_iff in Hn as [(D & A & Rn & U & Han) _].
     destruct (h_delete_ann _ D A Rn U Han k Hk (ann_fresh _ _ _ _ _ k Han (Hfr p n Ep G)) Eh) as [Han' Hw].
-    apply (node_attrs_step _ p n _ HW HA G).
+    apply (node_attrs_step S _ p n _ HW HA G).
     + exists (D ++ [k]), A, Rn, U. destruct n; exact Han'.
     + rewrite extend_get by (apply attr_suffix_neq; auto). apply aget_adel_other.
       intros E0; symmetry in E0; revert E0; apply plain_name_neq, Hk.
@@ -539,7 +541,7 @@ Proof.
     pose proof (atree_get _ _ _ HA G) as Hn. apply atree_iff in Hn as [(D & A & Rn & U & Han) _].
     destruct (Hfr p n Ep G) as [Hf Hno].
     destruct (h_insert_ann _ D A Rn U Han k v Hk Hv (ann_fresh _ _ _ _ _ k Han Hf) Hno) as [Han' Hw].
-    apply (node_attrs_step _ p n _ HW HA G).
+    apply (node_attrs_step S _ p n _ HW HA G).
     + exists D, (A ++ [k]), Rn, U. destruct n; exact Han'.
     + rewrite extend_get by (apply attr_suffix_neq; auto). apply aget_aput_other.
       intros E0; symmetry in E0; revert E0; apply plain_name_neq, Hk.
@@ -553,7 +555,7 @@ Proof.
     pose proof (atree_get _ _ _ HA G) as Hn. apply atree_iff in Hn as [(D & A & Rn & U & Han) _].
     destruct (Hfr p n Ep G) as (Hf & Hf' & Hno).
     destruct (h_rename_ann _ D A Rn U Han k k' v Hk Hk' Hne (ann_fresh _ _ _ _ _ k Han Hf) (ann_fresh _ _ _ _ _ k' Han Hf') Eg Hno) as [Han' Hw].
-    apply (node_attrs_step _ p n _ HW HA G).
+    apply (node_attrs_step S _ p n _ HW HA G).
     + exists D, A, (Rn ++ [(k, k')]), U. destruct n; exact Han'.
     + rewrite extend_get by (apply attr_suffix_neq; auto). rewrite aget_adel_other, aget_aput_other; [reflexivity| |];
         intros E0; symmetry in E0; revert E0; apply plain_name_neq; [apply Hk'|apply Hk].
@@ -571,7 +573,6 @@ Section ScriptAttrs.
 Variable c : cfg.
 Variable o : oracle.
 Variable rootns : list (option str * str).
-Hypothesis Hrep : c_replace c = false.
 
 Fixpoint run_ok_attr (st : fstate) (script : list gaction) : Prop :=
   match script with
@@ -583,43 +584,45 @@ Fixpoint run_ok_attr (st : fstate) (script : list gaction) : Prop :=
       end
   end.
 
-Theorem handle_all_attrs script : forall st st',
-  winv (fs_tree st) -> atree (fs_tree st) -> fs_ph st = ph_init ->
+Theorem handle_all_attrs S script : tinv S -> forall st st',
+  winv S (fs_tree st) -> atree (fs_tree st) -> tinv (fs_ph st) ->
   run_ok c o rootns st script -> run_ok_attr st script ->
-  handle_all c o rootns st script = FOk st' ->
+  handle_all c o rootns st script = FOk st' -> sext (fs_ph st') S ->
   atree (fs_tree st') /\ ale (av (fs_tree st')) (av (fs_tree st)).
 Proof.
-  induction script as [|a r IH]; intros st st' HW HA Hph Hok Hoa H; cbn [handle_all] in H.
+  intros HS. induction script as [|a r IH]; intros st st' HW HA Hph Hok Hoa H HX; cbn [handle_all] in H.
   - inversion H; subst. split; [exact HA|apply xle_refl].
   - apply fbind_ok in H as (st1 & E1 & H). rewrite handle_action_decode in E1.
     cbn [run_ok run_ok_attr] in Hok, Hoa. destruct (decode a) as [d|e]; [|discriminate]. cbn [fbind] in E1.
-    destruct Hok as [Hs Hr]. destruct Hoa as [Hsa Hra].
-    destruct (step_reject c o rootns Hrep st d st1 HW Hph Hs E1) as (I1 & P1 & _).
-    destruct (step_attrs c o rootns st d st1 HW HA Hsa E1) as (A1 & V1).
-    destruct (IH st1 st' I1 A1 P1 (Hr st1 E1) (Hra st1 E1) H) as (A2 & V2).
+    destruct Hok as (Hs & Hroom & Hr). destruct Hoa as [Hsa Hra].
+    destruct (step_ph c o rootns st d st1 Hph Hs Hroom E1) as [P1 X1].
+    destruct (handle_all_ph c o rootns r st1 st' P1 (Hr st1 E1) H) as [P2 X2].
+    destruct (step_reject S HS c o rootns st d st1 HW Hph (sext_trans _ _ _ X2 HX) Hs Hroom E1) as (I1 & _ & _).
+    destruct (step_attrs S c o rootns st d st1 HW HA Hsa E1) as (A1 & V1).
+    destruct (IH st1 st' I1 A1 P1 (Hr st1 E1) (Hra st1 E1) H HX) as (A2 & V2).
     split; [exact A2|eapply xle_trans; eassumption].
 Qed.
 End ScriptAttrs.
 
-Lemma rw_canon ws W :
-  canon ws (rw W) = XNode (proj_tag false W) (sort_attrs (old_attrs (xattrs W))) (Some (ntxt ws (rstr (otxt (xtext W)))))
-                          (ntxt ws (rstr (xtail W))) (map (fun k => canon ws (rw k)) (filter alive_r (xkids W))).
+Lemma rw_canon S ws W :
+  canon ws (rw S W) = XNode (proj_tag false W) (sort_attrs (old_attrs (xattrs W))) (Some (ntxt ws (rstr S (otxt (xtext W)))))
+                          (ntxt ws (rstr S (xtail W))) (map (fun k => canon ws (rw S k)) (filter alive_r (xkids W))).
 Proof. destruct W as [tag attrs text tail kids]. rewrite rw_unfold. cbn [canon xattrs xtext xtail xkids otxt]. now rewrite map_map. Qed.
 
 (* the structure/text view and the attribute view together give the rejected tree *)
 Local Opaque proj_tag.
-Lemma cr_split ws : forall W1 W2, vr ws W1 = vr ws W2 -> ale (av W1) (av W2) ->
-  xequiv_r_aux (canon ws (rw W1)) (canon ws (rw W2)).
+Lemma cr_split S ws : forall W1 W2, vr S ws W1 = vr S ws W2 -> ale (av W1) (av W2) ->
+  xequiv_r_aux (canon ws (rw S W1)) (canon ws (rw S W2)).
 Proof.
   induction W1 as [tag attrs text tail kids IH] using Placeholder.xtree_ind2. intros W2 Hv Ha.
-  rewrite !rw_canon. rewrite (vr_unfold ws (XNode tag attrs text tail kids)), (vr_unfold ws W2) in Hv.
+  rewrite !rw_canon. rewrite (vr_unfold S ws (XNode tag attrs text tail kids)), (vr_unfold S ws W2) in Hv.
   rewrite (av_unfold (XNode tag attrs text tail kids)), (av_unfold W2) in Ha.
   cbn [xtext xtail xattrs xkids] in *.
   injection Hv as Htag Htext Htail Hk. inversion Ha as [? ? ? ? ? ? ? Hattrs Hkids]; subst.
   rewrite Htag, Htext, Htail. constructor; [exact Hattrs|].
   cbn [xkids] in *.
-  assert (Hin : Forall (fun k => forall W2, vr ws k = vr ws W2 -> ale (av k) (av W2) ->
-                                  xequiv_r_aux (canon ws (rw k)) (canon ws (rw W2))) (filter alive_r kids)).
+  assert (Hin : Forall (fun k => forall W2, vr S ws k = vr S ws W2 -> ale (av k) (av W2) ->
+                                  xequiv_r_aux (canon ws (rw S k)) (canon ws (rw S W2))) (filter alive_r kids)).
   { rewrite Forall_forall in *. intros k Hk0. apply filter_In in Hk0 as [Hk0 _]. apply IH, Hk0. }
   clear - Hin Hk Hkids. revert Hk Hkids Hin. generalize (filter alive_r kids) as f1. generalize (filter alive_r (xkids W2)) as f2.
   intros f2 f1. revert f2. induction f1 as [|x f1 IHf]; intros [|y f2] Hk Hkids Hin; cbn [map] in *; try discriminate; inversion Hkids; subst; constructor.
@@ -638,15 +641,16 @@ Proof.
   cbn. apply XmlFmtProofs9.plain_attrs_id, H.
 Qed.
 
-Lemma rw_plain_canon ws : forall L, XmlFmtProofs9.nodiff L -> PlaceholderUndo.npua L = true -> canon ws (rw L) = canon ws L.
+Lemma rw_plain_canon S ws : tinv S -> forall L, XmlFmtProofs9.nodiff L -> PlaceholderUndo.npua L = true -> canon ws (rw S L) = canon ws L.
 Proof.
+  intros HS.
   induction L as [tag attrs text tail kids IH] using Placeholder.xtree_ind2.
   intros HN HP. inversion HN as [? ? ? ? ? Ha Hk]; subst.
   cbn [PlaceholderUndo.npua] in HP. apply andb_true_iff in HP as [HP Hpk]. apply andb_true_iff in HP as [Ht Htl].
   rewrite rw_canon. cbn [canon xattrs xtext xtail xkids proj_tag xtag].
   assert (Hr : aget attrs (dn l_rename) = None).
   { rewrite <- (XmlFmtProofs9.plain_attrs_id attrs Ha). apply aget_plain_attrs, prefixb_app. }
-  rewrite Hr, (old_attrs_plain attrs Ha), (rstr_plain _ Ht), (rstr_plain _ Htl). f_equal.
+  rewrite Hr, (old_attrs_plain attrs Ha), (rstr_plain S HS _ Ht), (rstr_plain S HS _ Htl). f_equal.
   assert (Hf : filter alive_r kids = kids).
   { apply XmlFmtProofs9.filter_all. intros k Hin. rewrite Forall_forall in Hk. specialize (Hk k Hin). inversion Hk as [? ka ? ? ? Hka _]; subst.
     unfold alive_r, is_inserted, ahas. cbn [xattrs]. rewrite <- (XmlFmtProofs9.plain_attrs_id ka Hka), aget_plain_attrs; [reflexivity|apply is_diff_dname]. }
@@ -677,26 +681,27 @@ Qed.
 
 (* C10 with attributes *)
 Theorem reject_format_attrs c o rootns script L T :
-  c_replace c = false ->
   PlaceholderUndo.npua L = true -> clean_tags L -> XmlFmtProofs9.nodiff L -> attrs_ok L ->
   run_ok c o rootns (FS L ph_init [(Some DIFF_PREFIX, DIFF_NS)]) script ->
   run_ok_attr c o rootns (FS L ph_init [(Some DIFF_PREFIX, DIFF_NS)]) script ->
   xml_format c o rootns ph_init script L = FOk T ->
   xequiv_r (ws_text c) (reject T) L.
 Proof.
-  intros Hrep HP HC HN HO Hok Hoa H. unfold xml_format in H. apply fbind_ok in H as (st & E & H).
+  intros HP HC HN HO Hok Hoa H. unfold xml_format in H. apply fbind_ok in H as (st & E & H).
   pose proof (XmlFmtProofs9.nodiff_unmarked L HN) as HU.
-  assert (HW : winv L).
+  destruct (handle_all_ph c o rootns script (FS L ph_init [(Some DIFF_PREFIX, DIFF_NS)]) st tinv_init Hok E) as [HS _].
+  set (S := fs_ph st) in *.
+  assert (HW : winv S L).
   { split; [apply npua_run_tree, HP|exact HC| |].
     - destruct L. cbn [PlaceholderUndo.npua] in HP. apply andb_true_iff in HP as [HP _]. apply andb_true_iff in HP as [_ HP]. exact HP.
     - inversion HU; subst. unfold is_inserted, ahas. cbn [xattrs]. now rewrite H0. }
-  destruct (handle_all_reject c o rootns Hrep script (FS L ph_init [(Some DIFF_PREFIX, DIFF_NS)]) st HW eq_refl Hok E) as (I & P & V).
-  destruct (handle_all_attrs c o rootns Hrep script (FS L ph_init [(Some DIFF_PREFIX, DIFF_NS)]) st HW (atree_init L HN HO) eq_refl Hok Hoa E) as (A & VA).
-  cbn [fs_tree] in V, VA. rewrite P in H.
-  destruct (finalize_run (fs_tree st) (wi_run _ I) (wi_tags _ I) (wi_tail _ I)) as (T' & F & _ & R).
+  destruct (handle_all_reject c o rootns S script HS (FS L ph_init [(Some DIFF_PREFIX, DIFF_NS)]) st HW tinv_init Hok E (sext_refl _)) as (I & V).
+  destruct (handle_all_attrs c o rootns S script HS (FS L ph_init [(Some DIFF_PREFIX, DIFF_NS)]) st HW (atree_init L HN HO) tinv_init Hok Hoa E (sext_refl _)) as (A & VA).
+  cbn [fs_tree] in V, VA.
+  destruct (finalize_run S HS (fs_tree st) (wi_run _ _ I) (wi_tags _ _ I) (wi_tail _ _ I)) as (T' & F & _ & R).
   rewrite F in H. inversion H; subst T'. unfold xequiv_r.
   rewrite R, canon_drop_set_tail, !canon_drop. apply xle_drop.
-  rewrite <- (rw_plain_canon (ws_text c) L HN HP). apply cr_split; assumption.
+  rewrite <- (rw_plain_canon S (ws_text c) HS L HN HP). apply cr_split; assumption.
 Qed.
 
 (* ------------------------------------------------------------------ *)
